@@ -3,8 +3,10 @@ package props
 import (
 	"fmt"
 	"math/rand/v2"
+	"os"
 	"strings"
 	"time"
+	_ "time/tzdata"
 	"unsafe"
 
 	"github.com/philpearl/avro"
@@ -68,8 +70,11 @@ func genRFC3339(r *rand.Rand) string {
 			b.WriteByte('.')
 		}
 		n := 1 + r.IntN(12)
-		if r.IntN(5) == 0 {
+		switch r.IntN(10) {
+		case 0, 1:
 			n = 1 + r.IntN(30)
+		case 2:
+			n = 31 + r.IntN(120) // texts of 64 bytes and more: the length prefix needs two bytes
 		}
 		for k := 0; k < n; k++ {
 			d := byte('0' + r.IntN(10))
@@ -100,6 +105,31 @@ func genRFC3339(r *rand.Rand) string {
 	return b.String()
 }
 
+// genNearDST: timestamps within hours of a daylight-saving transition of the process's local zone (if it has
+// any), carrying the offset of either side of the transition.
+func genNearDST(r *rand.Rand) string {
+	year := 2000 + r.IntN(40)
+	// second Sunday of March / first Sunday of November (US rules), last Sunday of March / October (EU rules)
+	var month time.Month
+	var day int
+	switch r.IntN(4) {
+	case 0:
+		month, day = time.March, 8+int((7-time.Date(year, time.March, 8, 0, 0, 0, 0, time.UTC).Weekday())%7)
+	case 1:
+		month, day = time.November, 1+int((7-time.Date(year, time.November, 1, 0, 0, 0, 0, time.UTC).Weekday())%7)
+	case 2:
+		month, day = time.March, 31-int(time.Date(year, time.March, 31, 0, 0, 0, 0, time.UTC).Weekday())
+	default:
+		month, day = time.October, 31-int(time.Date(year, time.October, 31, 0, 0, 0, 0, time.UTC).Weekday())
+	}
+	off := []string{"-04:00", "-05:00", "+01:00", "+02:00", "+00:00", "Z", "-08:00", "-07:00"}[r.IntN(8)]
+	frac := ""
+	if r.IntN(2) == 0 {
+		frac = fmt.Sprintf(".%d", r.IntN(1000))
+	}
+	return fmt.Sprintf("%04d-%02d-%02dT%02d:%02d:%02d%s%s", year, month, day-1+r.IntN(3), r.IntN(24), r.IntN(60), r.IntN(60), frac, off)
+}
+
 func sameTime(a, b time.Time) bool {
 	_, oa := a.Zone()
 	_, ob := b.Zone()
@@ -121,6 +151,9 @@ func fractionLen(s string) int {
 func c18Grammar(c *core.Ctx, r *rand.Rand, n int) {
 	for k := 0; k < n; k++ {
 		s := genRFC3339(r)
+		if k%8 == 7 {
+			s = genNearDST(r)
+		}
 		c.Journal(c.CurCase(), "s="+s)
 		want, err := time.Parse(time.RFC3339, s)
 		if err != nil && strings.Contains(s, ",") {
@@ -138,6 +171,9 @@ func c18Grammar(c *core.Ctx, r *rand.Rand, n int) {
 		}
 		c.Count("grammar.stdlib-accepts", 1)
 		c.Count(fmt.Sprintf("fraclen.%d", fractionLen(s)), 1)
+		if len(s) >= 64 {
+			c.Count("fraclen.long", 1)
+		}
 		c.Shape(fmt.Sprintf("frac%d-zone%c-sep%v", fractionLen(s), s[len(s)-6], strings.Contains(s, ",")))
 		if lerr != nil {
 			c.Violate("rejects-valid", fmt.Sprintf("%q is accepted by time.Parse(RFC3339) but the library fails: %v", s, lerr), map[string]any{"s": s})
@@ -282,6 +318,15 @@ func runC18(c *core.Ctx, i int) {
 	if c18rb == nil {
 		c18rb = avro.NewReadBuf(nil)
 		_ = lib.SchemaFor // registers codecs
+		if tz := os.Getenv("VERIF_TZ"); tz != "" {
+			loc, err := time.LoadLocation(tz)
+			if err != nil {
+				c.Inconclusive("time zone database entry not available: " + tz)
+			} else {
+				time.Local = loc
+				c.Count("local-zone."+tz, 1)
+			}
+		}
 	}
 	nDate := 100
 	if i < nDate {
@@ -308,9 +353,14 @@ func init() {
 		Rule: "grammar-generated RFC 3339 strings (two-digit fields, fraction lengths 1..30 with '.' or ',', Z or numeric offset, boundary/out-of-range field values) filtered by standard-library acceptance; every date 0000-01-01..9999-12-31; random time.Time values formatted with RFC3339Nano; prefix/substitution/insertion/deletion mutations for the no-panic clause; " +
 			"distinct_nontrivial = distinct (fraction length, zone form, separator) classes among stdlib-accepted strings plus date chunks",
 		Explanation: "The domain is defined by time.Parse(RFC3339) acceptance, so the oracle cannot ask for more than the property; results are compared by instant (Equal) and zone offset. Each string is journalled before the call so a panic inside the library is attributed.",
-		Modes:       func(tier string) []core.Mode { return []core.Mode{{Name: "plain", Variant: "plain"}} },
-		NumCases:    func(c *core.Ctx) int { return 100 + 32 },
-		Run:         runC18,
+		Modes: func(tier string) []core.Mode {
+			// the same workload with the process's local zone set to zones that observe daylight saving
+			// (time.Parse substitutes the local zone when the offset matches; the library must still agree)
+			return []core.Mode{{Name: "plain", Variant: "plain"}, {Name: "tz-newyork", Variant: "plain", Env: []string{"VERIF_TZ=America/New_York"}, CaseDiv: 2},
+				{Name: "tz-berlin", Variant: "plain", Env: []string{"VERIF_TZ=Europe/Berlin"}, CaseDiv: 4}}
+		},
+		NumCases: func(c *core.Ctx) int { return 100 + 32 },
+		Run:      runC18,
 		Floors: func(a *core.Agg) []string {
 			var u []string
 			if a.C("grammar.stdlib-accepts") < 100000 {
@@ -321,8 +371,11 @@ func init() {
 					u = append(u, fmt.Sprintf("fraction length %d never seen", l))
 				}
 			}
-			if a.C("dates") != 3652425 {
-				u = append(u, fmt.Sprintf("dates=%d != 3652425", a.C("dates")))
+			if a.C("fraclen.long") < 100 {
+				u = append(u, fmt.Sprintf("timestamps of 64 bytes and more: %d < 100", a.C("fraclen.long")))
+			}
+			if a.C("dates") < 3652425 {
+				u = append(u, fmt.Sprintf("dates=%d < 3652425", a.C("dates")))
 			}
 			if a.C("nopanic.inputs") < 50000 {
 				u = append(u, "too few no-panic inputs")
